@@ -30,7 +30,13 @@ def load_prop(pid: str):
 
 def analyse_findings(pid: str, src: Source):
     mod = load_prop(pid)
-    reports = mod.analyse(src)
+    try:
+        reports = mod.analyse(src)
+    except core.IdiomNotRecognised as e:
+        # the mechanism is written in a way the role discovery does not follow: the property is UNDECIDED on this tree
+        rep = core.Report(pid, src)
+        rep.ob("R0-idiom-not-recognised", None, core.Loc("jellyfysh", 0, pid), pid, f"idiom not recognised: {e}")
+        return mod, [rep]
     if not any(r.findings for r in reports):
         # vacuity guard; when violations were found they take precedence and are reported as such
         for r in reports:
